@@ -936,6 +936,25 @@ class Engine:
         self.add_pc(st, x == vals[0])
         return vals[0]
 
+    def concrete_ptr(self, st, p, what="pointer", limit=64):
+        """make the offset of p concrete: fork one state per feasible offset (re-executing the instruction)"""
+        if not isinstance(p, Ptr) or not is_sym(p.off):
+            return p
+        vals = self.values(st, p.off, limit + 1)
+        if not vals:
+            raise PathEnd("infeasible")
+        if len(vals) > limit:
+            raise NotImplementedError("too many feasible offsets for " + what)
+        for v in vals[1:]:
+            o = self.fork(st)
+            self.add_pc(o, p.off == v)
+            o.frames[-1].ip -= 1
+            self.work.append(o)
+            self.stats["forks"] += 1
+        if len(vals) > 1:
+            self.add_pc(st, p.off == vals[0])
+        return Ptr(p.obj, to_signed(vals[0], 64))
+
     # ---------- values
     def fresh(self, name, w, st=None, log=True):
         rp = self.replay
@@ -1173,6 +1192,14 @@ class Engine:
             except z3.Z3Exception as e:
                 kind = "engine-gap"
                 self.gaps["z3: " + str(e)[:120]] = self.gaps.get("z3: " + str(e)[:120], 0) + 1
+            except (TypeError, AttributeError, IndexError, KeyError, ValueError, AssertionError, OverflowError, ZeroDivisionError) as e:
+                import traceback
+                kind = "engine-gap"
+                tb = traceback.extract_tb(e.__traceback__)[-1]
+                key = "internal %s: %s @%s:%d" % (type(e).__name__, str(e)[:80], os.path.basename(tb.filename), tb.lineno)
+                self.gaps[key] = self.gaps.get(key, 0) + 1
+                if self.trace_ends:
+                    traceback.print_exc()
             self.stats["paths"] += 1
             self.ends[kind] = self.ends.get(kind, 0) + 1
             if kind == "ok":
@@ -1704,13 +1731,14 @@ def m_memcpy(e, st, args, I):
         n = e.concretize(st, n, None, "memcpy len")
     if n == 0:
         return dst
+    if n >= (1 << 40):
+        raise e.violation(st, "memcpy with huge length %d" % n, aid="memory")
+    if isinstance(src, Ptr) and is_sym(src.off):
+        src = e.concrete_ptr(st, src, "memcpy source")
+    if isinstance(dst, Ptr) and is_sym(dst.off):
+        dst = e.concrete_ptr(st, dst, "memcpy destination")
     so, soff = e.check_access(st, src, n, "memcpy-src")
     do_, doff = e.check_access(st, dst, n, "memcpy-dst")
-    if soff is None or doff is None:
-        t = ("int", n * 8)
-        v = e.load(st, src, t)
-        e.store(st, dst, v, t)
-        return dst
     cells = list(so.data[soff:soff + n])
     d = e.get_obj_w(st, dst.obj)
     d.data[doff:doff + n] = cells
@@ -1723,6 +1751,10 @@ def m_memset(e, st, args, I):
         n = e.concretize(st, n, None, "memset len")
     if n == 0:
         return dst
+    if n >= (1 << 40):
+        raise e.violation(st, "memset with huge length %d" % n, aid="memory")
+    if isinstance(dst, Ptr) and is_sym(dst.off):
+        dst = e.concrete_ptr(st, dst, "memset destination")
     do_, doff = e.check_access(st, dst, n, "memset")
     d = e.get_obj_w(st, dst.obj)
     cell = c if not is_sym(c) else ("e", c, 0)
